@@ -47,6 +47,17 @@ def _shift_contract(prog: Program, res: Result, name: str, seen=None) -> tuple[i
     flow = flow_of(fn)
     env = lambda: PolyEnv(atom_hook=transparent_casts, mod_transparent=True)  # noqa: E731
     sigmas = []
+    # loop variables that run over the shift parameter itself (`for i, shift in enumerate(shifts)`) are its elements
+    elems = set()
+    for lp_ in [n for n in ast.walk(fn.node) if isinstance(n, ast.For)]:
+        it_, tg_ = lp_.iter, lp_.target
+        if isinstance(it_, ast.Call) and dotted(it_.func) == "enumerate" and it_.args and isinstance(tg_, ast.Tuple) and len(tg_.elts) == 2:
+            it_, tg_ = it_.args[0], tg_.elts[1]
+        if isinstance(tg_, ast.Name) and dotted(_base(it_) if isinstance(it_, ast.Subscript) else it_) == sh:
+            elems.add(tg_.id)
+
+    def is_shift(sym: str) -> bool:
+        return sym.startswith(sh + "[") or sym == sh or sym in elems
     # direct slice stores
     for st in body_walk(fn.node):
         tgt = val = None
@@ -66,7 +77,7 @@ def _shift_contract(prog: Program, res: Result, name: str, seen=None) -> tuple[i
             lo_w = env().poly(flow.expand(wl.lower, at)) if wl is not None and wl.lower is not None else Poly.const(0)
             lo_r = env().poly(flow.expand(rl.lower, at)) if rl is not None and rl.lower is not None else Poly.const(0)
             off = lo_r - lo_w
-            atoms = [s for s in off.symbols() if s.startswith(sh + "[") or s == sh]
+            atoms = [s for s in off.symbols() if is_shift(s)]
             if not atoms:
                 continue
             c = off.coeff_of(atoms[0])
@@ -84,7 +95,7 @@ def _shift_contract(prog: Program, res: Result, name: str, seen=None) -> tuple[i
             if sub is None:
                 return None, why
             p = env().poly(flow.expand(c.args[1], flow.cfg.node_for(c)))
-            atoms = [s for s in p.symbols() if s.startswith(sh + "[") or s == sh]
+            atoms = [s for s in p.symbols() if is_shift(s)]
             if len(atoms) != 1 or not (p - p.coeff_of(atoms[0]) * Poly.sym(atoms[0])).is_zero():
                 return None, f"argument `{norm(c.args[1])}` is not +/- the shift parameter"
             k = p.coeff_of(atoms[0])
